@@ -1004,15 +1004,17 @@ func callSSAnoIntrinsic(i *interpreter, caller *frame, fn *ssa.Function, args []
 	if fn.Blocks == nil {
 		panic(engineError{"no code for function: " + name})
 	}
-	fr.env = make(map[ssa.Value]value)
+	cf := compileFunc(fn)
+	fr.cf = cf
+	fr.env = make([]value, cf.nslots)
 	fr.block = fn.Blocks[0]
 	fr.locals = make([]value, len(fn.Locals))
 	for j, l := range fn.Locals {
 		fr.locals[j] = zero(deref(l.Type()))
-		fr.env[l] = &fr.locals[j]
+		fr.env[cf.slot[l]] = &fr.locals[j]
 	}
 	for j, p := range fn.Params {
-		fr.env[p] = args[j]
+		fr.env[cf.slot[p]] = args[j]
 	}
 	for fr.block != nil {
 		runFrame(fr)
